@@ -621,7 +621,8 @@ def run(ctx):
                        "case lines; search: every testdata file, every harvested box (not mdat, <= 64 KiB), the repo fuzz seeds of the container family and "
                        "their structured mutants (C04 mutation set), every harvested box kind behind a 16-byte header / with a largesize mdat child, every "
                        "testdata file and synthesized progressive/fragmented file with largesize mdat boxes before/between/after its boxes, every generated "
-                       "leaf-pair box, through both decode paths and both encoders: accept+reproduce on one path => accept, equal Info(all:1) dump, "
+                       "leaf-pair box - each self-sized one once more as the first child of a container with a sibling behind it, so that the SR decoder runs on a reader that "
+                       "continues behind the box -, through both decode paths and both encoders: accept+reproduce on one path => accept, equal Info(all:1) dump, "
                        "field-by-field equal structure, equal sizes/LargeSize/StartPos/grouping and the same re-encoding on the other; "
                        "Encode vs EncodeSW equal bytes or both fail (both modes, ISM on/off); encode HISTORIES on API-built fragments / segments / files: the same "
                        "structure under a history and under the history with the two encoders exchanged (and Encode only / EncodeSW only), with "
